@@ -14,6 +14,8 @@ enabled, so every list is a schedule and every interleaving of the goroutines is
 number of points, on the edge buffer size, or on the length of the chain.
 -/
 import Kap.Proofs.C07Outcome
+import Kap.Gen.C07Go
+import Kap.Spec.C07Go
 namespace Kap.Props.C07
 open Kap.C07
 
@@ -60,7 +62,7 @@ property holds of what an observer sees. It is FALSE of the code (theorems `infl
 `stoptask_loses_ingest_backlog`, `udf_stop_loses_backlog`, `loopback_stop_deadlocks` below), hence only stated. -/
 def stop_delivers_all_stmt : Prop :=
   ∀ (cfg : Cfg) (kinds : List Kind) (n : Nat) (sched : List Act),
-    cfg.hookLock = false → cfg.alertLeak = false →
+    cfg.hookLock = false → cfg.alertLeak = false → cfg.barrierGuard = true →
     let s := run cfg (init kinds n) sched
     s.ph = .finished → holds (outcomeOf s) = true
 
@@ -70,12 +72,12 @@ has returned and the goroutines are gone, every output has been handed exactly t
 Excluded by hypothesis, because false: influxDBOut, UDF and loopback nodes, failing nodes (covered by
 `others_still_terminate`), and StopTask/DeleteTask (`viaClose = false`). -/
 theorem stop_delivers_all_partial (cfg : Cfg) (kinds : List Kind) (n : Nat) (sched : List Act)
-    (hclose : cfg.viaClose = true) (hk : ∀ k ∈ kinds, losslessKind n k = true) :
+    (hclose : cfg.viaClose = true) (hg : cfg.barrierGuard = true) (hk : ∀ k ∈ kinds, losslessKind n k = true) :
     let s := run cfg (init kinds n) sched
     s.stopped = true → holds (outcomeOf s) = true ∧ (outcomeOf s).delivered.all (· = s.accepted) = true := by
   intro s hst
   have hl : Lossless n cfg s := lossless_run (lossless_init cfg kinds n hclose hk) sched
-  exact ⟨lossless_holds hl hst, lossless_delivered hl hst⟩
+  exact ⟨lossless_holds hl hst (nopanic_run hg (nopanic_init kinds n) sched), lossless_delivered hl hst⟩
 
 /-- Non-vacuity: a concrete schedule of `stream → from → httpPost → alert` with 2 points, stopped by Close with
 a backlog in the pipeline, reaches a stopped state (and both outputs got both points). -/
@@ -144,12 +146,12 @@ has returned an error (a UDF process died, a child edge was aborted …) and not
 has returned and every goroutine of the task is gone: the property holds of what the observer sees. -/
 theorem others_still_terminate (cfg : Cfg) (kinds : List Kind) (n : Nat) (sched : List Act)
     (hhook : cfg.hookLock = false) (hleak : cfg.alertLeak = false) (hcap : 1 ≤ cfg.cap) (hne : kinds ≠ [])
-    (hk : ∀ k ∈ kinds, isLoop k = false) (hu : ∀ k ∈ kinds, isUdf k = false) :
+    (hg : cfg.barrierGuard = true) (hk : ∀ k ∈ kinds, isLoop k = false) (hu : ∀ k ∈ kinds, isUdf k = false) :
     let s := run cfg (init kinds n) sched
     Quiescent cfg s → s.nodes.any (·.failed) = true → holds (outcomeOf s) = true := by
   intro s hq hf
   have h := stop_terminates cfg kinds n sched hhook hleak hcap hne hk hu hq
-  exact holds_of h.2.1 h.2.2 (allDelivered_of_failed hf)
+  exact holds_of (noCrash_of (nopanic_run hg (nopanic_init kinds n) sched)) h.2.1 h.2.2 (allDelivered_of_failed hf)
 
 /-- Non-vacuity of `others_still_terminate`: `stream → httpPost → failing node (after 1 message) → httpPost`, 3
 points: a schedule reaches a quiescent state in which a node has failed (the upstream httpPost was handed
@@ -169,13 +171,29 @@ extended ends in a state of which the WHOLE property holds (stop returned, no go
 handed every accepted point). -/
 theorem close_stops_and_delivers (cfg : Cfg) (kinds : List Kind) (n : Nat) (sched : List Act)
     (hhook : cfg.hookLock = false) (hleak : cfg.alertLeak = false) (hcap : 1 ≤ cfg.cap) (hne : kinds ≠ [])
-    (hclose : cfg.viaClose = true) (hk : ∀ k ∈ kinds, losslessKind n k = true) :
+    (hclose : cfg.viaClose = true) (hg : cfg.barrierGuard = true) (hk : ∀ k ∈ kinds, losslessKind n k = true) :
     let s := run cfg (init kinds n) sched
     Quiescent cfg s → holds (outcomeOf s) = true := by
   intro s hq
   have h := stop_terminates cfg kinds n sched hhook hleak hcap hne (fun k hm => losslessKind_not_loop (hk k hm))
     (fun k hm => losslessKind_not_udf (hk k hm)) hq
-  exact (stop_delivers_all_partial cfg kinds n sched hclose hk h.1).1
+  exact (stop_delivers_all_partial cfg kinds n sched hclose hg hk h.1).1
+
+/-! ### Stopping never kills the daemon -/
+
+/-- The table Kap/Spec/C07Go.lean covers exactly the `go` statements that are in the Go source NOW (regenerated
+by extract/c07gosites on every run): a goroutine added to, removed from or moved within the task code makes
+this fail until somebody has looked at how it is stopped and joined. -/
+theorem go_sites_all_classified : goTable.map (·.1) = Kap.C07.Gen.goSites := by decide
+
+/-- **No helper goroutine sends on a closed edge**: with the repaired barrier timers (`Edge.CollectUnlessClosed`,
+e30c0fb) no schedule of any chain — barrier nodes with delete(TRUE) included — reaches a state in which a
+goroutine of the task has panicked. (The barrier timers are the only goroutines of the modelled nodes that
+write into an edge they do not own; Kap/Gen/C07Go.lean lists every `go` statement of the node files and
+`go_sites_all_classified` below fails when a new one appears.) -/
+theorem no_helper_sends_on_closed_edge (cfg : Cfg) (kinds : List Kind) (n : Nat) (sched : List Act)
+    (hg : cfg.barrierGuard = true) : noCrash (outcomeOf (run cfg (init kinds n) sched)) = true :=
+  noCrash_of (nopanic_run hg (nopanic_init kinds n) sched)
 
 /-! ### Counterexamples: where the code violates the property (each replayed on the real code by the corpus) -/
 
@@ -184,6 +202,16 @@ def cfgTask1 : Cfg := { cap := 1, viaClose := false, hookLock := false, alertLea
 def cfgOld1 : Cfg := { cap := 1, viaClose := false, hookLock := true, alertLeak := true }
 def feed1 : List Act := [.write, .forkTake, .forkLock, .forkPut, .node 0 .take, .node 0 .put]
 def stops (n : Nat) : List Act := List.replicate n .stop
+
+/-- defect repaired by e30c0fb (`Cfg.barrierGuard = false` is the code before): `stream → barrier.idle.delete(TRUE)`:
+the task is stopped while the barrier node still has a point in its (now closed) input edge; its idle timer
+fires and collects the DeleteGroup message into that edge: send on closed channel, the process dies. -/
+theorem barrier_timer_sends_on_closed_edge :
+    ∃ sched, (runStrict { cap := 1, viaClose := false, hookLock := false, alertLeak := false, barrierGuard := false }
+        (init [.pass, .barrier true] 2) sched).map (fun s => (outcomeOf s).crashed) = some true :=
+  ⟨feed1 ++ [.node 1 .take, .write, .forkTake, .forkLock, .forkPut, .node 0 .take, .node 0 .put] ++ stops 5 ++
+    [.node 0 .exit, .node 1 .timerFire], by decide⟩
+
 
 /-- finding `influxdbout-stop-drops-backlog`: `stream → influxDBOut.buffer(2)`, one accepted point sitting in the
 node's input edge, TaskMaster.Close: the stop runs flush() and abort() first, the node then takes the point and
